@@ -1045,7 +1045,8 @@ SimpleString StringFromOrdinalNumber(unsigned int number)
 {
     const char* suffix = "th";
 
-    if ((number < 11) || (number > 13)) {
+    unsigned int const lastTwoDigits = number % 100;
+    if ((lastTwoDigits < 11) || (lastTwoDigits > 13)) {
         unsigned int const onesDigit = number % 10;
         if (3 == onesDigit) {
             suffix = "rd";
